@@ -304,11 +304,21 @@ func (w *accWorld) doStep(conns map[string]*accConn, st accStep) (J, error) {
 		if err != nil {
 			return nil, err
 		}
+		out["freshb"] = true
 		vc := &ref.VerifyClient{ID: cs.id, Rnd: rndFunc(w.rng)}
 		v1 := vc.V1()
 		var key []byte
 		switch st.P {
 		case "ok":
+			key = vc.Eph.Pub[:]
+		case "sameA":
+			// the controller uses the ephemeral key of its previous exchange on this connection again
+			if cs.cur == nil {
+				fmt.Fprintln(os.Stderr, "skipped: VStart(sameA) without a previous exchange on", cs.name)
+				r = reply{http: -1, state: -1, terr: -1, class: "Skipped"}
+				break
+			}
+			vc.Eph = cs.cur.Eph
 			key = vc.Eph.Pub[:]
 		case "short":
 			key = vc.Eph.Pub[:31]
@@ -323,9 +333,16 @@ func (w *accWorld) doStep(conns map[string]*accConn, st accStep) (J, error) {
 		t.AddByte(ref.TagState, 1)
 		t.Add(ref.TagPublicKey, key)
 		_ = v1
+		if r.class == "Skipped" {
+			break
+		}
 		r = cs.exchange(tlvReq("/pair-verify", t), false)
-		if st.P == "ok" && r.http == 200 && r.state == 2 && r.terr == 0 {
+		if (st.P == "ok" || st.P == "sameA") && r.http == 200 && r.state == 2 && r.terr == 0 {
 			if err := vc.HandleV2(r.tlv, nil); err == nil {
+				// the accessory's ephemeral key belongs to this exchange alone
+				if cs.cur != nil && bytes.Equal(cs.cur.AccPub, vc.AccPub) {
+					out["freshb"] = false
+				}
 				cs.prev, cs.cur = cs.cur, vc
 				cs.sess = ref.NewControllerSession(vc.Shared)
 				out["accsig"] = w.checkV2(vc)
@@ -388,7 +405,7 @@ func (w *accWorld) checkV2(vc *ref.VerifyClient) bool {
 
 func (w *accWorld) finishBody(conns map[string]*accConn, cs *accConn, kind string) ([]byte, error) {
 	rnd := func(n int) []byte { b := make([]byte, n); w.rng.Read(b); return b }
-	needs := map[string]bool{"genuine": true, "wrongkey": true, "stale": true, "reordered": true, "unknown": true, "self": true, "selfkey": true, "reflect": true, "badtlv": true}
+	needs := map[string]bool{"replayown": true, "genuine": true, "wrongkey": true, "stale": true, "reordered": true, "unknown": true, "self": true, "selfkey": true, "reflect": true, "badtlv": true}
 	if needs[kind] && cs.cur == nil {
 		return nil, fmt.Errorf("VFinish(%s) on %s without an accepted start: not concretisable", kind, cs.name)
 	}
@@ -430,6 +447,12 @@ func (w *accWorld) finishBody(conns map[string]*accConn, cs *accConn, kind strin
 		return ref.WrapV3(key, sign(w.legit.Priv, w.legit.Name, cs.prev.Eph.Pub[:], cs.prev.AccPub)).Encode(), nil
 	case "reordered":
 		return ref.WrapV3(key, sign(w.legit.Priv, w.legit.Name, cs.cur.AccPub, cs.cur.Eph.Pub[:])).Encode(), nil
+	case "replayown":
+		// the genuine finish of this connection's previous exchange, byte for byte
+		if !cs.legit || cs.prev == nil {
+			return nil, fmt.Errorf("replayown finish without a previous exchange of the paired controller")
+		}
+		return cs.prev.V3().Encode(), nil
 	case "replayed":
 		for _, o := range conns {
 			if o.legit && o.cur != nil {
